@@ -6,6 +6,10 @@ ids = [p['id'] for p in props]
 
 # id -> (level, technique, text, note)
 CLAIMED = {
+ "C08": ("exploration", "independent sort/slice oracle in the harness over the engine's own unordered result, with and without usable indexes",
+         "The harness sorts the unordered rows (keys appended as output columns) with the documented rule and checks sortedness, slice bounds, key sequence, membership and permutation of every ORDER BY / LIMIT / OFFSET statement, plus DISTINCT exactly-once and DISTINCT-before-LIMIT.",
+         "NULLs last for ASC and DESC is taken as the documented rule; tie-group internal order is free."),
+
  "C06": ("exploration", "metamorphic monitor: ternary-logic partitioning of the engine against itself, with predicate shrinking",
          "Q is compared with the union of Q AND p, Q AND NOT p, Q AND (p) IS NULL in plain, DISTINCT, aggregate and GROUP BY forms, and COUNT(*) WHERE p with the number of TRUE values of SELECT (p); indexes make pushdown and index-scan paths participate.",
          "The engine is its own oracle; cases in which a query errors are skipped and counted."),
